@@ -46,6 +46,11 @@ def p2k_fast(alg, pw):
 
 def user_key(alg, secret, kt, engine_id):
     """the user's key localized to `engine_id`, from the secret the client was configured with"""
+    ks = 16 if alg == 1 else 20
+    if kt in ("localized", "master"):
+        # user.py aligns master and localized keys to the digest's key size: zero octets are added BEHIND a short key,
+        # a long one is cut (its documented behaviour)
+        secret = bytes(secret).ljust(ks, b"\x00")[:ks]
     if kt == "localized":
         return secret
     if kt == "master":
@@ -164,6 +169,13 @@ def run(chk, model_ok=True):
     samples = []
     for h in range(n_hist):
         peers = [sessions.rand_v3_peer(rng) for _ in range(3)] + [e2e.Peer("v2c")]
+        if h % 3 == 0:
+            # a master / localized key shorter than the digest's key size, as a user may type it in: user.py fills it up
+            a_ = rng.choice([1, 2])
+            peers.append(e2e.Peer("v3", auth=a_, priv=rng.choice([0, 1, 2]), engine_id=bytes(rng.getrandbits(8) for _ in range(12)),
+                                  user="shortkey", auth_pw=bytes(rng.getrandbits(8) | 1 for _ in range(rng.choice([1, 9, 15]))),
+                                  priv_pw=bytes(rng.getrandbits(8) | 1 for _ in range(rng.choice([1, 9, 15]))),
+                                  auth_kt=rng.choice(["master", "localized"]), priv_kt=rng.choice(["master", "localized"]), raw_secrets=True))
         if h % 5 == 0:
             peers.append(sessions.rand_v3_peer(rng, discover=True))
         ss = sessions.run_history(env, rng, peers, rng.randrange(1, 4), rng.randrange(5, 30), oversize_bias=0.04)
